@@ -403,7 +403,19 @@ def rule_eviction_pattern(rep: Report, idx) -> None:
 				elif drop_last:
 					verdict = verdict or ('ok', c_)
 	if verdict is None:
-		r.skip('find_oldest', f.where, 'find_oldest no longer cuts the cache path at `-` in a form this check reads')
+		# no recognised spelling: evaluate the pattern for a path with hyphens in the directory and in the key
+		from vlib import dsneval
+		glob_call = next((c_ for c_ in ast.walk(f.node) if isinstance(c_, ast.Call) and unparse(c_.func) in ('glob.glob', 'glob.iglob') and c_.args), None)
+		env = {path_p: '/w-x/.c/p-k/mod-a1b2c3.json'}
+		helpers = [h_.node for c_ in ast.walk(f.node) if isinstance(c_, ast.Call) and isinstance(c_.func, ast.Attribute) and isinstance(c_.func.value, ast.Name) and c_.func.value.id == 'self' for h_ in [cp.method(c_.func.attr)] if h_ is not None and h_ is not f]
+		for c_ in [x for b in [f.node] + helpers for x in ast.walk(b)]:
+			if isinstance(c_, ast.Call) and unparse(c_.func).endswith('.get') and c_.args and const_str(c_.args[0]) == 'format':
+				env[unparse(c_)] = 'json'
+		got = dsneval.evaluate(f.node, glob_call.args[0], env, cp) if glob_call is not None else dsneval.UNKNOWN
+		if not isinstance(got, str):
+			r.skip('find_oldest', f.where, 'find_oldest no longer cuts the cache path at `-` in a form this check reads')
+		else:
+			r.check(got == '/w-x/.c/p-k/mod-*.json', 'find_oldest', f.where, f'for the cache file /w-x/.c/p-k/mod-a1b2c3.json find_oldest looks for `{got}`: the identity must be cut off at the LAST `-` (expected /w-x/.c/p-k/mod-*.json); older files of the module survive and unrelated files may be deleted', got)
 	elif verdict[0] == 'bad':
 		r.violate('find_oldest', (cache.relpath, verdict[1].lineno), f'find_oldest cuts the cache path at its FIRST `-` (`{unparse(verdict[1])}`): the path is absolute, so a hyphen in the working directory (`/home/me/my-project/.cache/...`) or in the cache key makes the eviction pattern `/home/me/my-*<ext>`; the files of earlier identities are never removed (when an mtime recurs with other content the stale tree is loaded: warm output != cold output) and unrelated files matching the pattern are unlinked', unparse(verdict[1]))
 	else:
@@ -434,7 +446,12 @@ def rule_symbols_follow_the_tree(rep: Report, idx) -> None:
 
 	def env_of(fn, extra: dict) -> dict:
 		env = dict(extra)
-		for c_ in ast.walk(fn.node):
+		env.update({'os.getcwd()': '/w', 'self.setting.basedir': '.c', 'self._basedir': '.c'})
+		for p_ in fn.params():
+			if p_ not in ('self', 'cls') and p_ not in env:
+				env[p_] = f'<{p_}>'  # an opaque argument handed on to helpers (what is read from it is given by source text below)
+		helpers = [g.node for c_ in ast.walk(fn.node) if isinstance(c_, ast.Call) and isinstance(c_.func, ast.Attribute) and isinstance(c_.func.value, ast.Name) and c_.func.value.id in ('self', 'cls') and fn.cls is not None for g in [fn.cls.method(c_.func.attr)] if g is not None and g is not fn]
+		for c_ in [x for b in [fn.node] + helpers for x in ast.walk(b)]:
 			if isinstance(c_, ast.Call):
 				src = unparse(c_.func)
 				if src.endswith('identifier'):
@@ -448,26 +465,31 @@ def rule_symbols_follow_the_tree(rep: Report, idx) -> None:
 		return env
 
 	def file_part(fn):
-		"""the expression of the file name: the last argument of os.path.join(...) in the return, or the returned expression itself"""
-		ret = next((n.value for n in ast.walk(fn.node) if isinstance(n, ast.Return) and n.value is not None), None)
-		cur = ret
-		for _ in range(4):
-			if isinstance(cur, ast.Call) and unparse(cur.func) in ('os.path.abspath', 'os.path.join', 'os.path.normpath') and cur.args:
-				cur = cur.args[-1]
-		return cur
+		"""the returned path expression (evaluated below with the working directory '/w' and the cache directory '.c')"""
+		return next((n.value for n in ast.walk(fn.node) if isinstance(n, ast.Return) and n.value is not None), None)
 	key_p = [p_ for p_ in g.params() if p_ not in ('self', 'cls')][0]
-	tree_file = dsneval.evaluate(g.node, file_part(g), env_of(g, {key_p: KEY}))
+	tree_file = dsneval.evaluate(g.node, file_part(g), env_of(g, {key_p: KEY}), cp)
 	path_p = [p_ for p_ in f.params() if p_ not in ('self', 'cls')][0]
 	glob_call = next((c_ for c_ in ast.walk(f.node) if isinstance(c_, ast.Call) and unparse(c_.func) in ('glob.glob', 'glob.iglob') and c_.args), None)
-	pattern = dsneval.evaluate(f.node, glob_call.args[0], env_of(f, {path_p: tree_file})) if glob_call is not None and isinstance(tree_file, str) else dsneval.UNKNOWN
-	sym_file = dsneval.evaluate(h.node, file_part(h), env_of(h, {}))
+	pattern = dsneval.evaluate(f.node, glob_call.args[0], env_of(f, {path_p: tree_file}), cp) if glob_call is not None and isinstance(tree_file, str) else dsneval.UNKNOWN
+	sym_file = dsneval.evaluate(h.node, file_part(h), env_of(h, {}), pc)
 	# the key of the tree cache of a module is the same path function applied to the module path
 	tree_keys = [c_.args[0] for fn in parser.functions.values() for c_ in ast.walk(fn.node) if isinstance(c_, ast.Call) and isinstance(c_.func, ast.Attribute) and c_.func.attr == 'get' and any(k.arg == 'format' and const_str(k.value) == 'json' for k in c_.keywords) and c_.args]
 	same_key = False
 	for fn in parser.functions.values():
 		for k_ in tree_keys:
 			if any(x is k_ for x in ast.walk(fn.node)):
-				v = dsneval.evaluate(fn.node, k_, env_of(fn, {}))
+				if isinstance(k_, ast.Name) and k_.id in fn.params():
+					# the key is a parameter of a private helper: read the argument at its call sites
+					pos = [p_ for p_ in fn.params() if p_ not in ('self', 'cls')].index(k_.id)
+					for caller in parser.functions.values():
+						for c2 in ast.walk(caller.node):
+							if isinstance(c2, ast.Call) and isinstance(c2.func, ast.Attribute) and c2.func.attr == fn.name and isinstance(c2.func.value, ast.Name) and c2.func.value.id == 'self':
+								arg = c2.args[pos] if pos < len(c2.args) else next((kw.value for kw in c2.keywords if kw.arg == k_.id), None)
+								if arg is not None and dsneval.evaluate(caller.node, arg, {k2: v2 for k2, v2 in env_of(caller, {}).items() if not k2.isidentifier()}) == KEY:
+									same_key = True
+					continue
+				v = dsneval.evaluate(fn.node, k_, {k2: v2 for k2, v2 in env_of(fn, {}).items() if not k2.isidentifier()})
 				same_key = same_key or v == KEY
 	if not (isinstance(tree_file, str) and isinstance(pattern, str) and isinstance(sym_file, str) and same_key):
 		r.skip('names', h.where, f'the file names could not be evaluated (tree file {tree_file!r}, eviction pattern {pattern!r}, symbol file {sym_file!r}, tree cache keyed by the module file path: {same_key})')
